@@ -210,3 +210,77 @@ Qed.
    with the other theorems instantiated at limit := c_id_table_limit this gives the unconditional statement *)
 Theorem id_limit_fits_count_field : c_id_table_limit <= 65535.
 Proof. vm_compute. discriminate. Qed.
+
+(* ---- 4. composition: sqfs_serialize_fstree (lib/common/src/writer/serialize_fstree.c) ---- *)
+(* Model coq/Img/TreeModel.v: serialize_fstree walks the inodes of the post-processed tree in number order; per inode
+   [directory: dir_writer_begin, add_entry (name, child number, child inode_ref, child mode) per entry, dir_writer_end,
+   create_inode] or [serialize_tree_node], then the reference (block << 16 | offset) is recorded and the inode is
+   appended to the inode meta writer; finally both meta writers are flushed.  It is built from the component models above
+   (serialize, encode) and C03's meta writer / directory writer models.  The reader side (inode_at, read_listing,
+   read_tree) is a specification written from doc/format.adoc on top of C03's block / listing parsers and decode.
+   The theorems hold for every tree in the boolean domain [representable], every metadata compressor meeting the contract
+   of include/sqfs/compressor.h and every run that stays inside the 32 / 16 bit location fields ([trace_fits]). *)
+From SqfsV Require C03.Common C03.MetaModel C03.DirModel.
+From SqfsV Require Import Img.TreeModel Img.ReadProofs Img.TreeRT Img.ZrleProofs Img.Example.
+
+Definition meta_contract (compress : list N -> Common.cres) (uncompress : list N -> option (list N)) : Prop :=
+  forall b c, compress b = Common.CData c -> Common.lenN c <= Common.lenN b /\ uncompress c = Some b.
+
+(* every recorded inode reference (the ones directory entries and the super block carry) resolves, through the metadata
+   block reader specification, to exactly the inode that was written for that inode number *)
+Theorem serialize_refs_resolve : forall compress uncompress, meta_contract compress uncompress ->
+  forall limit, limit <= 65536 ->
+  forall bs t img,
+  representable bs t = true -> serialize_fstree compress limit t = Ok img -> trace_fits img = true ->
+  forall j r i, nth_error (si_refs img) j = Some r -> nth_error (si_inodes img) j = Some i ->
+    inode_at uncompress bs (si_itbl img) r = Some (clear_slack i).
+Proof. exact refs_resolve_l. Qed.
+Print Assumptions serialize_refs_resolve.
+
+(* ... and what a reader sees of that inode (type and permission bits, owner ids through the id table, mtime, inode
+   number, link count, xattr index, symlink target / device number / file size, block list, fragment location /
+   parent inode number) is what the tree says about the node with that number *)
+Theorem serialized_inode_view : forall compress uncompress, meta_contract compress uncompress ->
+  forall limit, limit <= 65536 ->
+  forall bs t img,
+  representable bs t = true -> serialize_fstree compress limit t = Ok img -> trace_fits img = true ->
+  forall j n i, nth_error t j = Some n -> nth_error (si_inodes img) j = Some i ->
+    lview_of_inode (si_ids img) (clear_slack i) = lview_of_fnode (N.of_nat j + 1) n.
+Proof. exact inode_view_l. Qed.
+Print Assumptions serialized_inode_view.
+
+(* tree_roundtrip: reading from (inode table, directory table, id table, root reference) with fuel = number of inodes
+   yields the tree that was serialized: along every path the names, and per node the view above; a hard link shows as
+   the same inode number (and identical subtree) under several entries.  The fuel suffices (the result is Some). *)
+Theorem tree_roundtrip : forall compress uncompress, meta_contract compress uncompress ->
+  forall limit, limit <= 65536 ->
+  forall bs t img,
+  representable bs t = true -> serialize_fstree compress limit t = Ok img -> trace_fits img = true ->
+  exists lt, spec_tree t (length t) (nlen t) = Some lt /\
+             read_tree uncompress bs (si_itbl img) (si_dtbl img) (si_ids img) (length t) (si_root img) = Some lt.
+Proof. exact tree_roundtrip_l. Qed.
+Print Assumptions tree_roundtrip.
+
+(* the compressors the tie runs (C03's toy modes 0/1, the zero-run-length mode 3) meet the contract *)
+Theorem img_compressors_meet_contract : forall mode, mode <= 1 \/ mode = 3 ->
+  meta_contract (img_compress mode) (img_uncompress mode).
+Proof. exact img_contract. Qed.
+Print Assumptions img_compressors_meet_contract.
+
+(* non-vacuity: a 96 inode tree (nested directories, hard link, symlink, device with xattr index, listings crossing
+   metadata block borders, two inode blocks, compressed blocks) is in the domain, is accepted, and reads back *)
+Example ex_img_tree_representable : representable 4096 ex_tree = true.
+Proof. exact ex_tree_representable. Qed.
+Example ex_img_tree_roundtrip :
+  match serialize_fstree (img_compress 3) c_id_table_limit ex_tree with
+  | Ok img =>
+      trace_fits img = true /\
+      (2 * 8192 <? Common.lenN (si_dtbl img)) = true /\
+      (rd16 (si_itbl img) <? 32768) = true /\
+      existsb (fun r => 0 <? r / 65536) (si_refs img) = true /\
+      read_tree (img_uncompress 3) 4096 (si_itbl img) (si_dtbl img) (si_ids img) (length ex_tree) (si_root img)
+        = spec_tree ex_tree (length ex_tree) (nlen ex_tree) /\
+      is_some (spec_tree ex_tree (length ex_tree) (nlen ex_tree)) = true
+  | _ => False
+  end.
+Proof. exact ex_tree_roundtrip. Qed.
